@@ -23,7 +23,7 @@ func init() {
 			"plus shared pairing/finish rules (C02.R6, C02.R3, C03.R4, C03.R5, C03.R6).",
 		NotDecided:  "completion of the probe RPC for all client/handler programs and cancel points (behavioural).",
 		Assumptions: []string{"handlers return (the library cannot bound a handler)"},
-		Rules: []Rule{
+		Rules: append([]Rule{
 			{ID: "C06.R1", Doc: "handleRPC: exactly one of SendError(err) / CloseSend() after the handler returns, chosen by err != nil", Run: c06r1},
 			{ID: "C06.R2", Doc: "the server's end-of-RPC call terminates the stream on every path (closing the receive buffer)", Run: c06r2},
 			{ID: "C06.R3", Doc: "manageReader parks in streamBuffer.Wait only for the stream id of an invoke it forwarded", Run: c06r3},
@@ -36,7 +36,8 @@ func init() {
 			{ID: "C06.S5", Alias: "C03.R6"},
 			{ID: "C06.S6", Alias: "C01.R3"},
 			{ID: "C06.S7", Alias: "C01.R4"},
-		},
+			{ID: "C06.S9", Doc: "a terminal call on an already terminated stream succeeds: the server does not give up the connection (and the next RPC) because a handler finished after its stream did (= C03.R12)", Alias: "C03.R12"},
+		}, disciplineRules("C06", "drpcmanager", "drpcserver", "drpcmux", "drpcstream")...),
 	})
 }
 
